@@ -306,6 +306,9 @@ func (s *sim) probeApplied(at appliedTx, status uint64, moved *big.Int) {
 	}
 	if status == 0 {
 		r.Probe("applied.failed-" + at.e.kind.String())
+		if at.e.kind == kStake && at.e.staked != nil && at.e.staked.Sign() > 0 {
+			r.Probe("applied.failed-stake-with-amount") // refused by the handler: nothing may be detained
+		}
 	} else {
 		r.Probe("applied.ok-" + at.e.kind.String())
 		if at.e.kind == kStake && moved.Sign() > 0 {
